@@ -59,11 +59,11 @@ CHECKS["C05"] = dict(
 
 CHECKS["C02"] = dict(
     engine="mirsym+kani",
-    technique="SMT (z3/cvc5, bit-vectors) over a symbolic execution of the real MIR of KademliaRoutingTable::{find_closest_nodes, add_node, remove_node} (with KBucket, DhtKey::distance, the sort comparator) on well-formed tables with symbolic contents; Kani/CBMC for the bucket-index kernel",
+    technique="SMT (z3/cvc5, bit-vectors, arrays, uninterpreted functions) over a symbolic execution of the real MIR of KademliaRoutingTable::{find_closest_nodes, add_node, remove_node} (with KBucket, DhtKey::distance, the sort comparator) on well-formed tables with symbolic contents, of the async DhtCoreEngine::{select_query_peers, find_nodes, handle_node_failure, evict_node, handle_request} and of the async DhtNetworkManager::{find_closest_nodes_local, handle_lookup_request} (reply merge of table and connected peers); Kani/CBMC for the bucket-index kernel",
     category="proof",
-    text="KERNEL claim (first sentence of the property): for well-formed tables (local id 0 by XOR symmetry; populated buckets at listed positions with symbolic fill and fully symbolic remaining id bits), symbolic key and count, the answer has min(count,size) entries, is strictly ascending in XOR distance (hence duplicate-free), consists of table entries and leaves no closer entry out; add/remove keep the table well-formed (each peer once, never self). Three genuine defects found this way on the original tree were replayed natively and repaired in /repo (known_findings.json).",
-    note="The reply-merge half (find_closest_nodes_local / handle_lookup_request, async) and the protocol caps in handle_request are NOT claimed. Trusts the Vec/iterator/sort summaries, the solvers, the XOR-translation symmetry assumption (local id = 0) and the listed layouts/bounds.",
-    design_ref="4/C02",
+    text="Both sentences of the property, bounded. KERNEL: for well-formed tables (local id 0 by XOR symmetry; populated buckets at listed positions with symbolic fill and fully symbolic remaining id bits), symbolic key and count, the answer has min(count,size) entries, is strictly ascending in XOR distance (hence duplicate-free), consists of table entries and leaves no closer entry out; add/remove keep the table well-formed (each peer once, never self); a failed / evicted peer appears in no answer. REPLY: the list a node hands out (find_closest_nodes_local, and handle_lookup_request for a remote find-node) over a table of up to two peers merged with up to two arbitrary connected-peer entries is the exact closest set of KNOWN PEERS, each peer (DHT key) once under one identifier, never the local node, never the requester's own id, and the requested count never exceeds the protocol cap; the find-node reply of DhtCoreEngine::handle_request is the exact closest set even with trust-weighted selection enabled. Four genuine defects found this way were replayed natively and repaired in /repo (known_findings.json).",
+    note="Bounds: listed layouts / bucket fills / counts <= 8 (kernel), four known peers with bytes 1..30 of ids and key concrete (reply merge). Trusts the Vec/iterator/sort/HashSet/HashMap summaries, the solvers, the XOR-translation symmetry assumption (local id = 0), abstract string identities with hex(id) injective. The value path of find-value / get replies (C03) and the async join call sites are outside.",
+    design_ref="4/C02, 8.9, 8.10",
 )
 
 CHECKS["C09"] = dict(
@@ -77,11 +77,11 @@ CHECKS["C09"] = dict(
 
 CHECKS["C04"] = dict(
     engine="mirsym",
-    technique="SMT (z3/cvc5; arrays over abstract string identities, bit-vectors) over a symbolic execution of the real MIR of the async state machines DhtNetworkManager::{handle_dht_response, send_dht_request, sweep_expired_operations} and TransportHandle::send_request, with the transport send, the wait for the reply and the clock as arbitrary environment outcomes",
+    technique="SMT (z3/cvc5; arrays over abstract string identities, bit-vectors) over a symbolic execution of the real MIR of the async state machines DhtNetworkManager::{handle_dht_response, send_dht_request, sweep_expired_operations}, TransportHandle::send_request and the spawned receive loop of TransportHandle::start_message_receiving_system (its async block polled in place on one inbound frame), with the transport send, the wait for the reply, the frame / envelope decoders and the clock as arbitrary environment outcomes",
     category="proof",
-    text="PARTIAL claim (the sequential steps of the property). One reply against an ARBITRARY pending table: it completes only the request carrying its identifier, only when it arrives from the contacted peer (transport sender, never the id claimed in the payload), at most once, and touches no other pending request; unknown ids, other senders, duplicates and result-less replies change nothing. One DHT request / one /rr/ request from an arbitrary pending table, for every outcome of the transport send and of the wait (reply, closed channel, timeout): nothing of the request remains in the pending table afterwards, other pending requests that are still within their own timeout are untouched, the /rr/ table refuses at its cap of 256 before anything is registered or sent. Counterexamples are replayed natively on a real manager / transport handle bound to loopback.",
-    note="NOT claimed: interleavings of several tasks (each pending table is guarded by one lock; the symbolic execution is single-task), timeouts as real time, the /rr/ reply-matching code inside TransportHandle's spawned receive loop, DhtCoreEngine::pending_requests. Natively only the send-error and cap paths can be forced (a counterexample needing a successful send is reported as inconclusive, exit 2). Trusts the summaries (HashMap as arrays, strings as identities, oneshot send = delivery, uuid fresh).",
-    design_ref="8.8",
+    text="PARTIAL claim (the sequential steps of the property). One reply against an ARBITRARY pending table, for DHT RPCs (handle_dht_response) and for /rr/ requests (the receive loop of the transport): it completes only the request carrying its identifier, only when it arrives from the contacted / expected peer (transport sender, never the id claimed in the payload), at most once, and touches no other pending request; unknown ids, other senders, duplicates and result-less replies change nothing (in particular a reply from the wrong peer leaves the request pending with its channel intact). One DHT request / one /rr/ request from an arbitrary pending table, for every outcome of the transport send and of the wait (reply, closed channel, timeout): nothing of the request remains in the pending table afterwards, other pending requests that are still within their own timeout are untouched, the /rr/ table refuses at its cap of 256 before anything is registered or sent. Counterexamples are replayed natively on real managers / transport handles / connected nodes on loopback.",
+    note="NOT claimed: interleavings of several tasks (each pending table is guarded by one lock; the symbolic execution is single-task), timeouts as real time, DhtCoreEngine::pending_requests. Natively only the send-error and cap paths of the senders can be forced (a counterexample needing a successful send is reported as inconclusive, exit 2); keepalive / undecodable frames cannot be injected natively. Trusts the summaries (HashMap as arrays, strings as identities, oneshot send = delivery, uuid fresh, mpsc channel yields one frame).",
+    design_ref="8.8, 8.10",
 )
 
 NA = {
